@@ -1,6 +1,7 @@
 package props
 
 import (
+	"bytes"
 	"fmt"
 	"path/filepath"
 	"strings"
@@ -215,6 +216,60 @@ func runC08(c *Ctx) error {
 		}
 		for _, f := range Formats {
 			typingCase(c, fam, s, f)
+		}
+	}
+	// (d) one parsed configuration asked for every format in turn (what a release tool does): the typed entries of each
+	// package – conffiles, backup lines, FILEFLAGS, ghosts – are those of a package built from its own fresh parse
+	{
+		src := filepath.Join(tree.Root, "etc/app.conf")
+		var doc strings.Builder
+		doc.WriteString("name: verifpkg\narch: amd64\nplatform: linux\nversion: 1.2.3\nmaintainer: Verif <verif@example.com>\ndescription: verification package\numask: 0o022\nmtime: 2023-11-14T22:13:20Z\nrpm:\n  buildhost: buildhost.example\ncontents:\n")
+		for _, f := range Formats {
+			fmt.Fprintf(&doc, "- src: %s\n  dst: /etc/app/%s.conf\n  type: config\n  packager: %s\n", src, f, f)
+			fmt.Fprintf(&doc, "- src: %s\n  dst: /etc/app/common-after-%s.conf\n  type: \"config|noreplace\"\n", src, f)
+		}
+		doc.WriteString("- dst: /var/log/app.log\n  type: ghost\n- src: " + src + "\n  dst: /usr/share/doc/app/README\n  type: readme\noverrides:\n")
+		for _, f := range Formats {
+			fmt.Fprintf(&doc, "  %s:\n    depends: [only-%s]\n", f, f)
+		}
+		rev := []string{}
+		for i := len(Formats) - 1; i >= 0; i-- {
+			rev = append(rev, Formats[i])
+		}
+		for _, order := range [][]string{Formats, rev} {
+			shared, perr := nfpm.Parse(strings.NewReader(doc.String()))
+			if perr != nil {
+				c.Rep.Note("c08 shared configuration does not parse: %v", perr)
+				break
+			}
+			for step, f := range order {
+				fresh, _ := nfpm.Parse(strings.NewReader(doc.String()))
+				build := func(cfg *nfpm.Config) ([]byte, error) {
+					info, err := cfg.Get(f)
+					if err != nil {
+						return nil, err
+					}
+					return BuildPkg(f, nfpm.WithDefaults(info))
+				}
+				got, e1 := build(&shared)
+				want, e2 := build(&fresh)
+				fam.Eval(fmt.Sprintf("shared-config|%v|%d|%s", order, step, f), true)
+				fam.Count("shared-configuration")
+				in := map[string]any{"config": doc.String(), "order": order, "step": step + 1, "format": f}
+				if (e1 == nil) != (e2 == nil) {
+					c.Rep.Find(report.Finding{Property: "C08", Family: "typing", Shape: f + ":typed-entries-differ-after-earlier-formats:error",
+						What: fmt.Sprintf("the %s package from a configuration that was asked for %v before: %v; from a fresh parse: %v", f, order[:step], e1, e2), Input: in})
+				} else if e1 == nil && !bytes.Equal(got, want) {
+					what := "packages differ"
+					if d1, err := DecodePkg(f, got); err == nil {
+						if d2, err := DecodePkg(f, want); err == nil {
+							what = fmt.Sprintf("members %d vs %d", len(d1.Members), len(d2.Members))
+						}
+					}
+					c.Rep.Find(report.Finding{Property: "C08", Family: "typing", Shape: f + ":typed-entries-differ-after-earlier-formats",
+						What: fmt.Sprintf("the %s package (config entries, conffiles / backup / FILEFLAGS, ghost, readme) from a configuration that was asked for %v before differs from the one of a fresh parse: %s", f, order[:step], what), Input: in})
+				}
+			}
 		}
 	}
 	return nil
